@@ -520,13 +520,19 @@ def handlePredict (st : St) (args impl : List String) : St × String :=
           flag (gsV.any (fun (_, ds, _, _, _, _) => ds.any (fun d => d.feat != 0 && !d.collectOk))) "feature-not-collectable" ++
           flag ((st.st.live.map (·.scene)).eraseDups.length ≥ 2) "multi-scene-store" ++
           flag (nVariants > 1) "appearance-weight-tie" ++
-          flag (gs.any (fun (_, _, es, _) => !AssignX.small (es.map (fun x => { q := x.det + 1, t := x.tid, w := x.w })))) "large-assignment-dp"
-        -- on small instances the dynamic programme must agree with the exhaustive enumeration
+          flag (gs.any (fun (_, _, es, _) => !AssignX.small (es.map (fun x => { q := x.det + 1, t := x.tid, w := x.w })))) "large-assignment-certified"
+        -- on small instances the dynamic programme (used for the number of optima) and the certified solver must
+        -- agree with the exhaustive enumeration; on large ones the solver must produce a certificate the checker
+        -- accepts (then `bestOf = best` by `AssignCert.bestOf_eq_best`; without one the model would fall back to
+        -- the infeasible enumeration, which is reported as a machinery error instead) and the DP must agree with it
         let dpOk := gs.all (fun (_, _, es, _) =>
           let aes : List AssignX.Entry := es.map (fun x => { q := x.det + 1, t := x.tid, w := x.w })
-          !AssignX.small aes || ((AssignX.bestDP aes st.cfg.thr).1 == AssignX.best aes st.cfg.thr &&
-                                 (AssignX.bestDP aes st.cfg.thr).2 == (AssignX.optimal aes st.cfg.thr).length))
-        if !dpOk then (st, bad "bestDP disagrees with the enumeration on a small instance") else
+          if AssignX.small aes then
+            ((AssignX.bestDP aes st.cfg.thr).1 == AssignX.best aes st.cfg.thr &&
+             (AssignX.bestDP aes st.cfg.thr).2 == (AssignX.optimal aes st.cfg.thr).length &&
+             AssignX.certified aes st.cfg.thr == some (AssignX.best aes st.cfg.thr))
+          else AssignX.certified aes st.cfg.thr == some (AssignX.bestDP aes st.cfg.thr).1)
+        if !dpOk then (st, bad "assignment optimum: no accepted certificate on a large instance, or solver / DP / enumeration disagree") else
         match modelRes with
         | none =>
           -- the implementation's outcome is not an outcome of the model: the choice is not a valid
